@@ -2,7 +2,7 @@
 import json, os, subprocess, sys, time, hashlib, re
 
 ROOT = os.path.dirname(os.path.dirname(os.path.abspath(__file__)))
-REPO = '/repo'
+REPO = os.environ.get('VERIF_REPO', '/repo')  # VERIF_REPO: scratch copy, for mutation experiments only
 COQ = os.path.join(ROOT, 'coq')
 OCAML_BUILD = os.path.join(ROOT, 'ocaml', '_build')
 EVIDENCE = os.path.join(ROOT, 'evidence')
